@@ -13,4 +13,10 @@ CHECKS = {
         "assumptions": ["reference times 1970..2500 as the property states"],
         "timeout_quick": 300, "timeout_thorough": 1500,
     },
+    "C18": {
+        "pkg": "c18",
+        "rule": "rapid-generated values per conversion with big-integer/rational reference arithmetic, plus a sweep of the kernel's scaled-ppm range.",
+        "assumptions": ["clocks.SystemClock.Drift is exercised without privileges (no adjtimex call is involved)", "CSPTP formula inputs bounded by 2^60 ns so that no admissible combination overflows int64"],
+        "timeout_quick": 300, "timeout_thorough": 1500,
+    },
 }
